@@ -409,6 +409,44 @@ static std::string vecKeyRat(const VectorBase<Rational>& v)
    return s;
 }
 
+// raw solution getters (the calls the C interface wraps) into generously sized buffers; key of everything they hand back
+static std::string rawGetterKey(SoPlex& s)
+{
+   int n = s.numCols(), m = s.numRows();
+   int cap = std::max(std::max(n, m), std::max(s._solReal._primal.dim(), std::max(s._solReal._dual.dim(), s._solReal._redCost.dim()))) + 8;
+   std::vector<double> buf((size_t)cap);
+   std::string k;
+   for(int which = 0; which < 3; which++)
+   {
+      for(auto& v : buf) v = canD();
+      bool ok = which == 0 ? s.getPrimalReal(buf.data(), n) : which == 1 ? s.getDualReal(buf.data(), m) : s.getRedCostReal(buf.data(), n);
+      k += ok ? "T" : "F";
+      int len = which == 1 ? m : n;
+      for(int i = 0; i < len; i++) k += std::to_string(dbits(buf[(size_t)i])) + ",";
+      k += ";";
+   }
+   return k;
+}
+// digest of what a solve leaves behind (used to recognise solves that the C++ library itself does not reproduce)
+static uint64_t solveDigest(SoPlex& s)
+{
+   std::string k = std::to_string((int)s.status()) + "|" + std::to_string(s.hasSol()) + std::to_string(s.hasBasis()) + std::to_string(s.hasPrimalRay()) +
+                   std::to_string(s.hasDualFarkas()) + std::to_string(s.isPrimalFeasible()) + std::to_string(s.isDualFeasible()) + "|" + std::to_string(
+                      s.numIterations()) + "|" + std::to_string(dbits(s.objValueReal())) + "|" + rawGetterKey(s);
+   for(int i = 0; i < s.numRows(); i++) k += std::to_string((int)s.basisRowStatus(i));
+   for(int j = 0; j < s.numCols(); j++) k += std::to_string((int)s.basisColStatus(j));
+   if(s._rationalLP != nullptr && s.hasSol())
+   {
+      k += "|" + s.objValueRational().str() + "|";
+      VectorBase<Rational> q(s.numColsRational()), z(s.numRowsRational());
+      k += s.getPrimalRational(q) ? "T" : "F";
+      k += vecKeyRat(q);
+      k += s.getDualRational(z) ? "T" : "F";
+      k += vecKeyRat(z);
+   }
+   return fnv(k);
+}
+
 static std::string diffSoPlex(SoPlex& a, SoPlex& b)
 {
 #define DIFF_I(what, x, y) do { auto vx = (x); auto vy = (y); if(!(vx == vy)) { std::ostringstream o; o << what << ": handle " << vx << " mirror " << vy; return o.str(); } } while(0)
@@ -488,6 +526,7 @@ static std::string diffSoPlex(SoPlex& a, SoPlex& b)
    DIFF_D("objValueReal", a.objValueReal(), b.objValueReal());
    for(int i = 0; i < m; i++) DIFF_I("basisRowStatus " + std::to_string(i), (int)a.basisRowStatus(i), (int)b.basisRowStatus(i));
    for(int j = 0; j < n; j++) DIFF_I("basisColStatus " + std::to_string(j), (int)a.basisColStatus(j), (int)b.basisColStatus(j));
+   DIFF_S("getPrimalReal/getDualReal/getRedCostReal(array)", rawGetterKey(a), rawGetterKey(b));
    if(a.hasSol())
    {
       VectorBase<double> xa(n), xb(n), sa(m), sb(m), ya(m), yb(m), da(n), db(n);
@@ -1423,30 +1462,57 @@ static bool rationalSolveSelected(Ctx& c)
             && c.M->realParam(SoPlex::OPTTOL) >= 1e-9));
 }
 static bool opSolVecReal(Ctx& c, Fn f);
-// returns 1: the C++ solve completes with status OPTIMAL, 0: completes with another status, -1: dies
-static int probeOptimize(Ctx& c)
+// The mirror's solve is first tried in a forked child.  returns 1: the C++ solve completes with status OPTIMAL, 0: completes
+// with another status, -1: dies; digest: what the solve left behind in the child
+static int probeOptimize(Ctx& c, uint64_t& digest)
 {
    fflush(stdout);
    fflush(stderr);
+   int fd[2];
+   if(pipe(fd) != 0) return 1;
    pid_t pid = fork();
-   if(pid < 0) return 1;
+   if(pid < 0)
+   {
+      close(fd[0]);
+      close(fd[1]);
+      return 1;
+   }
    if(pid == 0)
    {
-      int fd = open("/dev/null", O_WRONLY);
-      if(fd >= 0)
+      close(fd[0]);
+      int nul = open("/dev/null", O_WRONLY);
+      if(nul >= 0)
       {
-         dup2(fd, 1);
-         dup2(fd, 2);
+         dup2(nul, 1);
+         dup2(nul, 2);
       }
       alarm(60);
       int st = (int)c.M->optimize();
-      _exit(st == (int)SPxSolverBase<double>::OPTIMAL ? 0 : 3);
+      uint64_t d = solveDigest(*c.M);
+      ssize_t w = write(fd[1], &st, sizeof st);
+      w = write(fd[1], &d, sizeof d);
+      (void)w;
+      _exit(0);
    }
+   close(fd[1]);
+   unsigned char buf[12];
+   size_t got = 0;
+   while(got < sizeof buf)
+   {
+      ssize_t r = read(fd[0], buf + got, sizeof buf - got);
+      if(r < 0 && errno == EINTR) continue;
+      if(r <= 0) break;
+      got += (size_t)r;
+   }
+   close(fd[0]);
    int status = 0;
    while(waitpid(pid, &status, 0) < 0 && errno == EINTR) {}
    sink().count("probe.optimize");
-   if(!WIFEXITED(status)) return -1;
-   return WEXITSTATUS(status) == 0 ? 1 : WEXITSTATUS(status) == 3 ? 0 : -1;
+   if(!WIFEXITED(status) || WEXITSTATUS(status) != 0 || got != sizeof buf) return -1;
+   int st;
+   memcpy(&st, buf, 4);
+   memcpy(&digest, buf + 4, 8);
+   return st == (int)SPxSolverBase<double>::OPTIMAL ? 1 : 0;
 }
 static bool opOptimize(Ctx& c)
 {
@@ -1475,7 +1541,8 @@ static bool opOptimize(Ctx& c)
    // The exact solver of the C++ library has memory errors of its own on some of these small LPs.  C20 judges the wrapper
    // where the wrapped C++ call itself completes: the mirror's solve is first tried in a forked child; if the child dies
    // the solve is not part of this history.
-   int probe = probeOptimize(c);
+   uint64_t probeDigest = 0;
+   int probe = probeOptimize(c, probeDigest);
    if(probe < 0)
    {
       sink().count(rationalSolveSelected(c) ? "guard.cpp_optimize_dies_in_probe.rational" : "guard.cpp_optimize_dies_in_probe.real");
@@ -1496,6 +1563,16 @@ static bool opOptimize(Ctx& c)
       st = SoPlex_optimize(c.H);
    }
    int sm = (int)c.M->optimize();
+   // Is the C++ solve itself reproducible here?  The mirror has now solved twice from the same state: once in the forked
+   // child (before the handle's solve) and once here (after it).  If the two C++ runs disagree (order effects through
+   // process-wide state, uninitialised memory in the exact solver) the twin comparison says nothing about the wrapper.
+   if(solveDigest(*c.M) != probeDigest)
+   {
+      sink().count(rationalSolveSelected(c) ? "guard.cpp_solve_not_reproducible.rational" : "guard.cpp_solve_not_reproducible.real");
+      g_track = -1;
+      c.dead = true;
+      return true;
+   }
    int sh = (int)c.h().status();
    sink().count(std::string("status.") + std::to_string(st));
    sink().count(rationalSolveSelected(c) ? "solves.rational" : "solves.real");
